@@ -181,7 +181,7 @@ def _recv_name(n):
     return l[1] if l else n.get("k", "?")
 
 
-def _confined_to_log(fx, hb, n, ps):
+def _confined_to_log(fx, hb, n, ps, _depth=0):
     """The source value (through its method chain and one binding) is used only as a format
     argument of a write_fmt whose receiver is a std::fs::File."""
     cur, cps = n, ps
@@ -191,6 +191,23 @@ def _confined_to_log(fx, hb, n, ps):
             cur, cps = u.cont
             continue
         break
+    if u.kind == "fn_return" and _depth < 2 and hb.get("vis") != "Public" and hb.get("dk") in ("Fn", "AssocFn"):
+        # a private helper that returns the clock value (`fn nanos_since_epoch() -> u128`): the value is what its callers
+        # do with the call's result
+        sites = []
+        for cb in fx.hir:
+            if cb["from_expansion"]:
+                continue
+            for cn, cps2 in walk_body(cb):
+                if cn.get("k") in ("Call", "MethodCall") and (cn.get("callee") or {}).get("did") == hb["did"]:
+                    sites.append((cb, cn, cps2))
+        if not sites:
+            return True, "returned by a helper nothing calls"
+        for cb, cn, cps2 in sites:
+            okc, whyc = _confined_to_log(fx, cb, cn, cps2, _depth + 1)
+            if not okc:
+                return False, "returned by %s; in %s: %s" % (hb["path"], cb["path"], whyc)
+        return True, "returned by the private helper %s, whose %d caller(s) only format it into the heap log" % (hb["path"], len(sites))
     if u.kind != "bound":
         return False, "value is consumed by %s, not confined to the heap-log writer" % u.kind
     uses = local_uses(hb["value"], u.cont)
